@@ -22,6 +22,7 @@ PROP = "C15"
 
 # the interpreter of scripted scenarios: a document {"d":[event,...]} (or, under -n / -s, the script embedded in the query)
 INTERP = ('if has("v") then .v elif has("e") then error(.e) elif has("halt") then halt '
+          'elif has("dbg") then (.dbg | debug | empty) elif has("se") then (.se | stderr | empty) '
           'elif has("hd") then (.hd | halt_error) else (.c as $c | .h | halt_error($c)) end')
 BAD_TAILS = ['{"d":x}', '[1,', 'nul', '}', '{"d":[]', '"abc']
 PARSE_ERR_QUERIES = [".[", "1 +", "if . then 1", "{a:", ". as | ."]
@@ -62,6 +63,10 @@ def script(events, r):
             out.append({"v": jqgen.unV(ev["v"])})
         elif ev["k"] == "err":
             out.append({"e": jqgen.unV(ev["v"])})
+        elif ev["k"] == "dbg":
+            out.append({"dbg": jqgen.unV(ev["v"])})
+        elif ev["k"] == "stderr":
+            out.append({"se": jqgen.unV(ev["v"])})
         else:
             v, c = jqgen.unV(ev["v"]), ev["c"]
             if v is None and c == 0 and r.random() < 0.7:
@@ -105,6 +110,8 @@ ATOMS = [".", ".", ".[]", ".[]?", ".a", ".a?", ".[0]", "1", '"x"', "null", "fals
          ".[]|halt_error(3)", 'if type == "string" then halt_error else . end', 'if type == "number" then halt_error(.) else . end',
          "(.[]?|select(type==\"string\")), error(\"after\")", "., halt, .", "1, error(\"e\"), 2", "false, null", "null", "\"é☃\"",
          "[limit(3; repeat(1))]", "path(..)", "to_entries", "tojson|fromjson", "ascii_downcase", "implode", "error(\"\\u0000\")",
+         "debug", "stderr", ".[]? | debug", "debug | error", "(1,2) | stderr", "debug(\"m\")", "[.] | debug | .[0]", "stderr | halt_error",
+         "halt_error(1.5)", "halt_error(\"x\")", "halt_error(null)", "error(error)", "try halt catch .", "try halt_error catch .",
          "@base64", "ltrimstr(\"a\")", "splits(\"a\")", "utf8bytelength", "halt_error(0)", "halt_error(256)", "[.]|halt_error(2)"]
 
 
@@ -207,6 +214,53 @@ def validate(rep, work, recs, tag, timeout):
     return out
 
 
+# predicates of open known findings (none: F-C15-slurp-empty-nil-slice is fixed; its witnesses stay in REGRESSION)
+PREDICATES = {}
+
+
+def classify_known(rep, work, case, res, rec, tag):
+    for k in rep.known:
+        c = k.get("classifier", {})
+        f = PREDICATES.get(c.get("impl")) if c.get("kind") == "predicate" else None
+        if f and f(rep, work, case, res, rec, tag):
+            return k["id"]
+    return None
+
+
+# regression corpus: witnesses of the listed findings and pinned facts (DESIGN M7)
+def A(*xs):
+    out = []
+    for x in xs:
+        if x == "Q":
+            out.append({"k": "pos"})
+        elif x.startswith("--"):
+            out.append({"k": "long", "name": x[2:]})
+        elif x.startswith("-"):
+            out.append({"k": "short", "fl": list(x[1:])})
+        else:
+            out.append({"k": "int", "n": int(x)})
+    return out
+
+
+REGRESSION = [
+    (A("-s", "-c", "Q"), "del(.[0])", ""),                       # F-C15-slurp-empty-nil-slice (fixed by 7ad515a): must stay []
+    (A("-s", "-e", "Q"), "del(.[1:])", " \n"),
+    (A("-s", "Q"), "delpaths([[0,3]])", ""),
+    (A("-s", "-c", "Q"), "del(.[0])", "1 2"),
+    (A("Q"), 'if . == 1 then error("x") else halt end', "1 2 3"),   # the halt status wins over an earlier error
+    (A("Q"), "halt_error(300)", "1"),
+    (A("--indent", "10", "Q"), ".[", "1"),                        # status 5, before the query is parsed
+    (A("-e", "Q"), "halt", "1"),
+    (A("-e", "Q"), ".", "1 null"),
+    (A("-e", "Q"), "empty", "1"),
+    (A("-e", "Q"), 'if . == 2 then error("two") else null end', "1 2 3"),
+    (A("--raw-output0", "Q"), ".", '"a\\u0000b" 2'),
+    (A("-j", "--raw-output0", "Q"), ".[]", '["foo",1,2,3]'),
+    (A("-s", "Q"), ".", "1 2 x"),
+    (A("-n", "Q"), "1", "1 x"),
+]
+
+
 def check(rep, work, vh, gojq, cases, tag, counters, timeout=600):
     """Run the cases on the binary (and the library), validate with TLC, classify."""
     def bump(k, n=1):
@@ -262,6 +316,12 @@ def check(rep, work, vh, gojq, cases, tag, counters, timeout=600):
                 bump("panic")
                 rep.violation("gojq %r panicked on stdin %r: %s" % (case["argv"], case["stdin"][:200], text_of(res["obs"].get("stderr", []))[:300]),
                               {"family": "c15", "case": kase, "actual": res["obs"]})
+                continue
+            fid = classify_known(rep, work, case, res, rec, tag)
+            if fid:
+                bump("known:" + fid)
+                rep.known_finding(fid, "gojq %s <<< %r prints %r" % (" ".join(map(repr, case["argv"])), case["stdin"][:80],
+                                                                      text_of(rec["obs"]["stdout"])[:80]))
                 continue
             bump("mismatch")
             e = v["exp"]
@@ -348,6 +408,8 @@ def run(tier, seed, replay):
             c = lib_case(args, r)
             c["fam"] = "L"
             cases.append(c)
+        for toks, q, stdin in REGRESSION:
+            cases.append({"argv": render_args(toks, q), "stdin": stdin, "lib": {"query": q}, "args": toks, "fam": "L"})
         for i, c in enumerate(cases):
             c["id"] = i
         step = 6000
